@@ -25,6 +25,37 @@ claim(
     "Bounded: <= 4 operations exhaustively (+ fixed probes up to 10 operations); reference model and feasibility checker in jslmc/refmodel.py are trusted.",
 )
 
+claim(
+    "C02",
+    "stateless exhaustive DFS over all dispatch histories on the real Dispatcher; per-step oracle = forced start rule + tracking derived from schedule content; every recorded history re-dispatched on fresh / reset dispatchers and through the real frame-replay loop; revisit differential per canonical state",
+    "All histories of all instances of the small-scope families, every prefix: start time, tracking vectors, count and makespan are compared with values derived from the schedule; the HistoryObserver record of every prefix is replayed three ways and must reproduce the schedule. Complete enumeration within the bounds.",
+    "Bounded to <= 4 operations exhaustively plus fixed probes; create_gantt_chart_frames is driven with a stub Figure.",
+)
+claim(
+    "C05",
+    "explicit-state exploration of every reachable dispatcher state x bounded query sequences (all ordered pairs / triples, forward+reverse passes, pre-transition queries across every dispatch and reset edge) on the real Dispatcher against a reference recomputation",
+    "In every reachable state of every small-scope instance every query is compared with an independent recomputation, after every ordered pair of earlier queries (triples of the memoised queries in thorough) and across every transition; this is exactly the order-dependence the property quantifies over, enumerated completely up to sequence length 2-3.",
+    "Query sequences longer than 3 per state are not explored; set-valued queries compared as sets.",
+)
+claim(
+    "C06",
+    "stateless exhaustive DFS over all histories x filter compositions on the real Dispatcher; edge invariant (monotone clock, growing completed set) + lock-step unfiltered twin",
+    "Every edge of every history of the families is checked for a non-decreasing current time and a growing completed set; with every ordered composition of built-in filters (positive durations) an unfiltered twin is driven in lock-step and must agree on the current time in every state.",
+    "Bounded to the listed families; filters only with positive durations as the property states.",
+)
+claim(
+    "C07",
+    "explicit-state enumeration: every distinct reachable state x every non-empty sub-list of ready operations x every filter composition and construction route, real filter functions vs reference criteria; plus exhaustive walk of each filtered history tree for deadlock-freedom",
+    "Complete enumeration of (state, sub-list, composition) triples over the small-scope families, plus every node of every filtered dispatch tree; the oracle is the documented criterion composed left to right.",
+    "Dominated-operations criterion not asserted on inputs containing zero-duration operations (only sub-list + non-empty), as the property leaves the shortcut open.",
+)
+claim(
+    "C08",
+    "two exhaustive memoised state-graph searches per instance on the real Dispatcher (full vs dominated-pruned successor relation), minima compared with each other and with a library-free reference optimum",
+    "For every positive-duration instance of the families the complete full and pruned state graphs are explored; equality of the minima is the property itself, decided instance by instance without sampling.",
+    "Bounded to <= 6 operations / 3 machines / durations <= 3; relies on semi-active schedules containing an optimum.",
+)
+
 PENDING = {
     f"C{n:02d}": "check not built yet in this revision (planned: bounded exhaustive exploration, see DESIGN.md)"
     for n in range(1, 21)
